@@ -924,7 +924,6 @@ Section Collapse.
       - exact (s_subsumed_empty st6 Hs6).
       - (* ids *)
         intros z i Hz. unfold Fn, final in Hz; cbn [t_ids] in Hz. rewrite !aget_aset in Hz.
-        assert (Hxs : xs < nsets st6 /\ exists d, dom_to st6 xs d /\ mem_of st6 d z -> True) by (split; [rewrite Hn6; apply Hdx|exists xs; auto]).
         destruct (Nat.eqb_spec z y) as [->|Hzy].
         + inversion Hz; subst. split; [change (xs < nsets st6); rewrite Hn6; apply Hdx|].
           exists xs. split; [exact dom_xs6|]. apply Hm6. left. split; [reflexivity|]. right. exists ys. split; [apply in_l; auto|exact Hmy].
